@@ -548,7 +548,7 @@ pub fn gen_and_run(seed: u64, index: u64, scratch: &str, cfg: &GenCfg, fenced: &
 
     let mut cur_files = files.clone();
     let mut cur_by = bystanders.clone();
-    let v0 = push(&mut sc, &mut h, Op::Project { files: cur_files.clone(), bystanders: cur_by.clone(), outside: outside.clone(), faulty: None, note: "initial".into() });
+    let v0 = push(&mut sc, &mut h, Op::Project { files: cur_files.clone(), bystanders: cur_by.clone(), outside: outside.clone(), faulty: None, faulty2: None, note: "initial".into() });
     // order relation on the initial version
     if cur_files.len() >= 2 {
         let perms = if (cfg.all_perms && cur_files.len() <= 4) || cur_files.len() <= 3 {
@@ -608,7 +608,7 @@ pub fn gen_and_run(seed: u64, index: u64, scratch: &str, cfg: &GenCfg, fenced: &
         let tag = format!("e{edit_no}");
         let mut faulty = None;
         let note;
-        match rng.below(11) {
+        match rng.below(12) {
             0 | 1 => {
                 // exactly one file faulty, then repaired
                 let k = rng.below(cur_files.len().max(1) as u64) as usize;
@@ -627,13 +627,13 @@ pub fn gen_and_run(seed: u64, index: u64, scratch: &str, cfg: &GenCfg, fenced: &
                 }
                 let mut fv = cur_files.clone();
                 fv[k].text = format!("{}{}", fv[k].text, line);
-                faulty = Some(Faulty { path: fv[k].path.clone(), line: line.clone() });
+                faulty = Some(Faulty { path: fv[k].path.clone(), line: line.clone(), at_top: false });
                 note = format!("make_faulty:{kind}:{}", fv[k].path);
-                push(&mut sc, &mut h, Op::Project { files: fv, bystanders: cur_by.clone(), outside: vec![], faulty: faulty.clone(), note });
+                push(&mut sc, &mut h, Op::Project { files: fv, bystanders: cur_by.clone(), outside: vec![], faulty: faulty.clone(), faulty2: None, note });
                 let t = transpile(&mut rng, &h, cfg.cli_permille);
                 push(&mut sc, &mut h, t);
                 // repair
-                let rv = push(&mut sc, &mut h, Op::Project { files: cur_files.clone(), bystanders: cur_by.clone(), outside: vec![], faulty: None, note: "repair".into() });
+                let rv = push(&mut sc, &mut h, Op::Project { files: cur_files.clone(), bystanders: cur_by.clone(), outside: vec![], faulty: None, faulty2: None, note: "repair".into() });
                 last_valid_version = rv;
                 let t = transpile(&mut rng, &h, cfg.cli_permille);
                 push(&mut sc, &mut h, t);
@@ -671,7 +671,7 @@ pub fn gen_and_run(seed: u64, index: u64, scratch: &str, cfg: &GenCfg, fenced: &
                 }
                 cur_files.push(SrcFile { path, text });
                 note = "add_unrelated".to_string();
-                let ev = push(&mut sc, &mut h, Op::Project { files: cur_files.clone(), bystanders: cur_by.clone(), outside: vec![], faulty: None, note });
+                let ev = push(&mut sc, &mut h, Op::Project { files: cur_files.clone(), bystanders: cur_by.clone(), outside: vec![], faulty: None, faulty2: None, note });
                 sc.relations.push(Rel::Interference { base_op: last_valid_version, ext_op: ev });
                 last_valid_version = ev;
             }
@@ -689,7 +689,7 @@ pub fn gen_and_run(seed: u64, index: u64, scratch: &str, cfg: &GenCfg, fenced: &
                     continue;
                 }
                 note = "rename_order".to_string();
-                let rv = push(&mut sc, &mut h, Op::Project { files: fv.clone(), bystanders: cur_by.clone(), outside: vec![], faulty: None, note });
+                let rv = push(&mut sc, &mut h, Op::Project { files: fv.clone(), bystanders: cur_by.clone(), outside: vec![], faulty: None, faulty2: None, note });
                 sc.relations.push(Rel::SameTexts { op_a: last_valid_version, op_b: rv });
                 cur_files = fv;
                 last_valid_version = rv;
@@ -702,7 +702,7 @@ pub fn gen_and_run(seed: u64, index: u64, scratch: &str, cfg: &GenCfg, fenced: &
                     }
                 }
                 note = "shrink_last".to_string();
-                let rv = push(&mut sc, &mut h, Op::Project { files: cur_files.clone(), bystanders: cur_by.clone(), outside: vec![], faulty: None, note });
+                let rv = push(&mut sc, &mut h, Op::Project { files: cur_files.clone(), bystanders: cur_by.clone(), outside: vec![], faulty: None, faulty2: None, note });
                 last_valid_version = rv;
             }
             6 => {
@@ -711,8 +711,42 @@ pub fn gen_and_run(seed: u64, index: u64, scratch: &str, cfg: &GenCfg, fenced: &
                     cur_files.pop();
                 }
                 note = "delete_last".to_string();
-                let rv = push(&mut sc, &mut h, Op::Project { files: cur_files.clone(), bystanders: cur_by.clone(), outside: vec![], faulty: None, note });
+                let rv = push(&mut sc, &mut h, Op::Project { files: cur_files.clone(), bystanders: cur_by.clone(), outside: vec![], faulty: None, faulty2: None, note });
                 last_valid_version = rv;
+            }
+            10 => {
+                // two files with the SAME fault at the SAME position (files copied from one
+                // template): both must be reported, each with its own name; then repaired
+                if cur_files.len() < 2 || sc.layout.src_file.is_some() {
+                    continue;
+                }
+                let i = rng.below(cur_files.len() as u64) as usize;
+                let j = (i + 1 + rng.below(cur_files.len() as u64 - 1) as usize) % cur_files.len();
+                if cur_files[i].text.contains('\r') || cur_files[j].text.contains('\r') || cur_files[i].text.starts_with("from ") || cur_files[j].text.starts_with("from ") {
+                    continue;
+                }
+                let (line, kind) = match rng.below(3) {
+                    0 => ("def zzsame9 := $\n".to_string(), "lexical"),
+                    1 => ("def zzsame9: Int :=\n".to_string(), "syntax"),
+                    _ => ("def zzsame9: Int := \"a\"\n".to_string(), "type"),
+                };
+                let mut fv = cur_files.clone();
+                fv[i].text = format!("{line}{}", fv[i].text);
+                fv[j].text = format!("{line}{}", fv[j].text);
+                // the two definitions must not clash by name: the second file gets another name of the same length
+                let line2 = line.replace("zzsame9", "zzsamf9");
+                fv[j].text = fv[j].text.replacen(&line, &line2, 1);
+                let f1 = Faulty { path: fv[i].path.clone(), line: line.clone(), at_top: true };
+                let f2 = Faulty { path: fv[j].path.clone(), line: line2.clone(), at_top: true };
+                note = format!("make_faulty:{kind}:two");
+                push(&mut sc, &mut h, Op::Project { files: fv, bystanders: cur_by.clone(), outside: vec![], faulty: Some(f1), faulty2: Some(f2), note });
+                let t = transpile(&mut rng, &h, cfg.cli_permille);
+                push(&mut sc, &mut h, t);
+                let rv = push(&mut sc, &mut h, Op::Project { files: cur_files.clone(), bystanders: cur_by.clone(), outside: vec![], faulty: None, faulty2: None, note: "repair".into() });
+                last_valid_version = rv;
+                let t = transpile(&mut rng, &h, cfg.cli_permille);
+                push(&mut sc, &mut h, t);
+                continue;
             }
             8 => {
                 // the same project and output directory under another configuration: a single
@@ -748,14 +782,14 @@ pub fn gen_and_run(seed: u64, index: u64, scratch: &str, cfg: &GenCfg, fenced: &
                 }
                 cur_files[k].path = newp;
                 note = "file_to_dir".to_string();
-                let rv = push(&mut sc, &mut h, Op::Project { files: cur_files.clone(), bystanders: cur_by.clone(), outside: vec![], faulty: None, note });
+                let rv = push(&mut sc, &mut h, Op::Project { files: cur_files.clone(), bystanders: cur_by.clone(), outside: vec![], faulty: None, faulty2: None, note });
                 last_valid_version = rv;
             }
             _ => {
                 // only bystanders change; plain repeated run into the populated directory
                 if rng.chance(1, 2) {
                     cur_by.push(SrcFile { path: format!("{tag}.txt"), text: "bystander\n".into() });
-                    push(&mut sc, &mut h, Op::Project { files: cur_files.clone(), bystanders: cur_by.clone(), outside: vec![], faulty: None, note: "bystander".into() });
+                    push(&mut sc, &mut h, Op::Project { files: cur_files.clone(), bystanders: cur_by.clone(), outside: vec![], faulty: None, faulty2: None, note: "bystander".into() });
                 }
             }
         }
@@ -811,7 +845,7 @@ pub fn enumerate_faults(seed: u64, index: u64, scratch: &str, fenced: &BTreeSet<
         root_name: "proj".into(),
         layout: Layout::default(),
         annotate: rng.chance(1, 2),
-        history: vec![Op::Project { files: files.clone(), bystanders, outside: vec![], faulty: None, note: "enumeration".into() }],
+        history: vec![Op::Project { files: files.clone(), bystanders, outside: vec![], faulty: None, faulty2: None, note: "enumeration".into() }],
         relations: vec![],
         expect: None,
     };
